@@ -9,6 +9,7 @@ class FaultyFile(io.RawIOBase):
 
     mode 'raise': at write-call index fail_at accept the first k bytes, then raise OSError.
     mode 'short': at write-call index fail_at accept k bytes and return k (a legal short write), then carry on.
+    mode 'chunked': every call takes at most k bytes; mode 'none': every call takes everything and returns None.
     """
 
     def __init__(self, fail_at=None, k=0, mode="raise"):
@@ -28,6 +29,10 @@ class FaultyFile(io.RawIOBase):
         b = bytes(b)
         idx = len(self.calls)
         self.calls.append(len(b))
+        if self.mode == "none":
+            # takes everything, answers None (file-like objects that are no io classes: tee / hashing / upload wrappers)
+            self.image += b
+            return None
         if self.mode == "chunked":
             # a raw device that takes at most k bytes per call (every oversized write is a short write)
             k = max(1, self.k)
